@@ -413,6 +413,9 @@ def run(ctx):
     drv = common.LeanDriver()
     generated_initcond(ctx)
     generated_glue(ctx)
+    import genwrap, genglue2
+    genwrap.run_stream(ctx)           # the *_from_graph wrappers regenerated from the source (Gen/WrapGen.lean)
+    genglue2.run_stream(ctx)          # sixteen further ODE entry points regenerated whole (Gen/OdeGlue2.lean)
     layouts(ctx)
     probe_known(ctx)
     probe_known2(ctx)
